@@ -74,6 +74,48 @@ def state_matrix(r, res, tabs):
                         w.thread_op(0, "e")
                 res.dist("case:state-matrix")
                 out.append((sysd, w.events, w.expected(), "; ".join(w.illegal)))
+    # the same for the LEAVE event: enter while running, change the thread state, then the matching leave
+    for model in ["nosv", "nanos6", "nodes", "tampi", "mpi", "openmp"]:
+        tab = tabs[model]
+        rows = [rw for rw in tab["table"] if rw[3] == 1 and (model not in histories.CATS or chr(rw[0]) in histories.CATS[model])]
+        rows = [rw for rw in rows if any(p[3] == 2 and p[2] == rw[2] and p[4] == rw[4] for p in tab["table"])]
+        for state, path in paths.items():
+            if not path or not rows:
+                continue
+            for row in (rows[:1] + [r.choice(rows)]):
+                pop = next(p for p in tab["table"] if p[3] == 2 and p[2] == row[2] and p[4] == row[4])
+                require = {"ovni": tabs["ovni"]["version"], model: tab["version"]}
+                sysd = emu_lib.Sys([("node0", [(100, [10])], [0])], require)
+                w = histories.Walk2(r, sysd, {model: tab})
+                w.thread_op(0, "x")
+                w.model_event(0, model, row)
+                for op in path:
+                    w.thread_op(0, op)
+                w.model_event(0, model, pop)
+                if w.illegal:
+                    why = list(w.illegal)
+                    guard = 0
+                    while w.st[0] != "running" and guard < 3:
+                        guard += 1
+                        ops = [o for o in "rw" if w.st[0] in histories.LEGAL[o]]
+                        if not ops:
+                            break
+                        op = "r" if "r" in ops else "w"
+                        w.emit(0, "OH" + op)
+                        w.st[0] = histories.LEGAL[op][w.st[0]]
+                    w.emit(0, "OHe")
+                    w.illegal = why
+                else:
+                    guard = 0
+                    while w.st[0] != "running" and guard < 3:
+                        guard += 1
+                        ops = w.legal_ops(0)
+                        w.thread_op(0, "r" if "r" in ops else "w")
+                    w.close_all(0)
+                    if "e" in w.legal_ops(0):
+                        w.thread_op(0, "e")
+                res.dist("case:state-matrix-leave")
+                out.append((sysd, w.events, w.expected(), "; ".join(w.illegal)))
     return out
 
 
